@@ -293,15 +293,36 @@ def r2_required_attributes(ctx):
     ctx.floor("required attributes in _module_check", len(required), 5)
     # attributes auto-completed when absent
     auto = set()
+    cond_auto = {}
     for n in walk_no_nested(auto_fn, False):
         if isinstance(n, ast.Assign):
             for t in n.targets:
                 if isinstance(t, ast.Attribute) and dotted(t.value) == \
                         "self.module":
                     conds = conditions_at(n)
-                    if any((not c.pol) and _hasattr_key(c.text) == t.attr
-                           for c in conds):
-                        auto.add(t.attr)
+                    if not any((not c.pol) and _hasattr_key(c.text) == t.attr
+                               for c in conds):
+                        continue
+                    # the completion must depend on nothing but the absence
+                    # of this very attribute
+                    extra = [c for c in conds
+                             if _hasattr_key(c.text) != t.attr]
+                    foreign = [c for c in extra if _hasattr_key(c.text)]
+                    if foreign:
+                        cond_auto[t.attr] = (n, foreign)
+                        continue
+                    if extra:
+                        raise Undecided(
+                            f"completion of module.{t.attr} depends on "
+                            f"{[repr(c) for c in extra]}")
+                    auto.add(t.attr)
+    for attr, (n, foreign) in sorted(cond_auto.items()):
+        if attr not in auto:
+            ctx.fail(n, f"default for module.{attr} supplied when absent",
+                     f"the default '{attr}' wrapper is only supplied when "
+                     f"{' and '.join(repr(c) for c in foreign)}: a model "
+                     f"that lacks '{attr}' but not the other attribute "
+                     f"cannot be registered (AttributeError)")
     # has_module_ancillaries is True only under hasattr(compute_ancillaries)
     flag_ok = True
     for n in ast.walk(cls):
@@ -339,8 +360,9 @@ def r2_required_attributes(ctx):
         elif attr in anc_ok and ("compute_ancillaries" in hk or (
                 under_flag and flag_ok)):
             ok = True
-        elif attr in auto and meth is not check_fn and meth is not auto_fn:
-            ok = True
+        elif attr in (auto | set(cond_auto)) and meth is not check_fn \
+                and meth is not auto_fn:
+            ok = True   # a conditional completion is reported above
         if not ok and attr in guarded.get(next(iter(hk), None) or "", []):
             ok = True
         key = (attr, meth.name, ok)
